@@ -596,6 +596,23 @@ def t_loop_progress(facts, res, tier):
                 res.inst(rid, True, sample)
                 res.note("exception %s: %s" % (key, LOOP_EXCEPTIONS[key]))
                 continue
+            # a search for an unused name: `while M.get(&k).is_some() { k = format!(.. c ..); c += 1; }` - every pass names a larger
+            # count, the names of different counts differ, and M (not touched in the loop) is finite
+            if node["k"] == "while" and not (ok_ft and ok_cont):
+                ct = expr_text(node["cond"]).replace(" ", "")
+                mm = re.match(r"^\(?(.+?)\.(?:get\(&?(\w+)\)\.is_some\(\)|contains_key\(&?(\w+)\))\)?$", ct)
+                if mm:
+                    mp, kn = mm.group(1), mm.group(2) or mm.group(3)
+                    body_nodes = list(walk(node["body"]))
+                    renames = [x for x in body_nodes if x.get("k") == "assign" and expr_text(x["l"]).strip() == kn and x["r"].get("k") == "macro" and x["r"].get("name") == "format"]
+                    steps = [expr_text(x["l"]).replace(" ", "") for x in body_nodes if x.get("k") == "assignop" and x.get("op") == "+" and x["r"].get("k") == "lit" and isinstance(x["r"].get("v"), int) and x["r"]["v"] >= 1]
+                    grows = [c for c in steps if renames and any(c in expr_text(r["r"]).replace(" ", "") for r in renames)]
+                    touches = [x for x in body_nodes if x.get("k") == "mcall" and x["method"] in ("insert", "remove", "clear", "retain") and expr_text(x["recv"]).replace(" ", "") == mp]
+                    exits = [x for x in body_nodes if x.get("k") in ("continue",)]
+                    if renames and grows and not touches and not exits:
+                        sample["measures"] = sorted(set(found) | {"fresh-name:%s" % grows[0]})
+                        res.inst(rid, True, sample)
+                        continue
             res.inst(rid, True, sample)
             if rearmed:
                 # needs a bounded pass counter
